@@ -228,6 +228,7 @@ var SetupCalls = []fsx.Call{
 	{Op: "WriteFile", A: "/d/e/z", Data: "z", Perm: 0o666},
 	{Op: "Link", A: "/d/x", B: "/d/h"},
 	{Op: "Mkdir", A: "/f", Perm: 0o777},
+	{Op: "WriteFile", A: "/f/g", Data: "g", Perm: 0o666},
 	{Op: "Chmod", A: "/d", Perm: 0o777},
 	{Op: "Chmod", A: "/d/e", Perm: 0o777},
 	{Op: "Chmod", A: "/f", Perm: 0o777},
